@@ -355,8 +355,8 @@ def finish(b):
         outs['t0l'] = ca.vertcat(*[ca.MX(e) for e in meth.t0_local])
     if g.get('localize_T') or g['kind'] == 'free':
         outs['Tl'] = ca.vertcat(*[ca.MX(e) for e in meth.T_local])
+    outs['tintg'], outs['Xi'] = ocp.sample(X, grid='integrator')
     if m['kind'] == 'dc':
-        outs['tintg'], outs['Xi'] = ocp.sample(X, grid='integrator')
         outs['troots'], outs['Xc'] = ocp.sample(X, grid='integrator_roots')
         if b.algs:
             Z = ca.vertcat(*[ca.vec(s) for s in b.algs])
@@ -384,10 +384,13 @@ def eval_phys(b, xv, pv, freev=None):
         args.append(freev)
     res = b.Wphys(args)
     out = {}
+    mags = {}
     for name, vals in zip(b.phys_names, res):
         r, c = b.phys_shapes[name]
         # dense column-major → list of columns
         out[name] = [[vals[j * r + i][0] for i in range(r)] for j in range(c)]
+        mags[name] = [[vals[j * r + i][1] for i in range(r)] for j in range(c)]
+    b.last_mags = mags
     return out
 
 
